@@ -424,8 +424,13 @@ Conseq(k, dk, s, c, o, t) ==
     [] k = "FailRegistersNot" ->
           \/ n \notin DOMAIN t.L
           \/ /\ o.res = "CONFLICT"
-             /\ LegitFile(dk, t.L[n], n)
-             /\ \E e \in E : \E x \in Nodes(dk, s, e) : x.ns = n /\ x.ver = t.L[n].c.ver /\ x.ver # e.f.iver
+             /\ LegitFile(dk, t.L[n], n) /\ ~t.L[n].lazy
+             /\ \E e \in E :
+                   /\ t.L[n].c.ver # e.f.iver
+                   \* (a lazily loaded namespace in the closure is re-read from its file when it is needed
+                   \*  eagerly, and brings in ITS recorded dependencies, which Nodes does not follow)
+                   /\ \/ TouchesLazy(dk, s, e)
+                      \/ \E x \in Nodes(dk, s, e) : x.ns = n /\ x.ver = t.L[n].c.ver
     \* nothing else gets loaded than dependencies, each from the first directory having
     \* <dep>-<recorded version>.typelib   (in the silent zones: from SOME good file)
     [] k = "OnlyClosure" ->
